@@ -278,6 +278,22 @@ def model_batch(cases):
     return run_driver(reqs)
 
 
+def indexed_model_answer(edges, wq):
+    """the model's answer to an index-API query on the INDEXED graph of these edges (labels instead of index numbers, as everywhere)"""
+    pre = model_batch([('indexed', edges, [['nodes']])])[0]
+    if 'answers' not in pre or 'ok' not in pre['answers'][0]:
+        return {'na': True}
+    nodes = pre['answers'][0]['ok']
+    try:
+        q = resolve_for_model(wq, nodes)
+    except ValueError:
+        return {'na': True}
+    rep = model_batch([('indexed', edges, [q])])[0]
+    if 'answers' not in rep:
+        return {'na': True}
+    return canon_model(rep['answers'][0], wq, nodes)
+
+
 def answers_equal(impl, model):
     if 'na' in impl or 'na' in model:
         return ('na' in impl) == ('na' in model)
@@ -474,6 +490,11 @@ def evaluate_cases(ctx, cases, stream, theorem, nontrivial, what_key=None, on_bu
         for (wq, iq), mans in pairs:
             ia = impl_answer(g, iq)
             ma = canon_model(mans, wq, numbering[k])
+            if 'na' in ma and 'na' not in ia:
+                # a graph class that has no index API in the model answers an index query: the class has GROWN the index API (nothing
+                # forbids that); it must then answer like the index API of the indexed graph built from the same edges
+                ma = indexed_model_answer(edges, wq)
+                ctx.count('index-api-on-a-class-the-model-gives-none')
             if not answers_equal(ia, ma):
                 bad.append({'query': wq, 'impl': ia, 'model': ma})
                 if len(bad) >= 3:
